@@ -26,6 +26,11 @@ def setInit (iv : Iv) (v : Nat) : Iv := { iv with contents := setInitBytes iv.co
 def poke (iv : Iv) (i : Nat) (b : UInt8) : Option Iv :=
   if i < iv.contents.length then some { iv with contents := iv.contents.set i b } else none
 
+/-- a whole-contents edit: `bi.contents = c` (any bytes-like object; the
+property only speaks of edits that keep the stored bytes within `size`) -/
+def assign (iv : Iv) (c : Bytes) : Option Iv :=
+  if c.length ≤ iv.size then some { iv with contents := c } else none
+
 /-- the constructor (`none` = ValueError "initialized_size must be <= size!"):
 defaults from `len(contents)`, then contents, size, initialized_size in that order -/
 def ctor (size? init? : Option Nat) (contents : Bytes) : Option Iv :=
@@ -40,6 +45,7 @@ inductive Op where
   | setSize (n : Nat)
   | setInit (v : Nat)
   | poke (i : Nat) (b : UInt8)
+  | assign (c : Bytes)
   deriving Repr
 
 /-- `setInit` outside the property's quantifier (`v > size`) is flagged `none` -/
@@ -47,6 +53,7 @@ def step (iv : Iv) : Op → Option Iv
   | .setSize n => some (setSize iv n)
   | .setInit v => if v ≤ iv.size then some (setInit iv v) else none
   | .poke i b => poke iv i b
+  | .assign c => assign iv c
 
 /-! ### block views -/
 
@@ -98,6 +105,13 @@ def driverStep (s : Iv) (line : String) : Iv × String :=
       | some iv => (iv, "ok " ++ showIv iv)
       | none => (s, "IndexError")
     | _, _ => (s, "bad-op")
+  | ["assign", h] =>
+    match bytesOfHex h with
+    | some c =>
+      match assign s c with
+      | some iv => (iv, "ok " ++ showIv iv)
+      | none => (s, "outside")
+    | none => (s, "bad-op")
   | ["block", off, sz, base, probe] =>
     match off.toNat?, sz.toNat?, optNat base, probe.toInt? with
     | some o, some z, some b, some p =>
